@@ -270,7 +270,7 @@ func doEq(line int, r J, stats map[string]int) {
 	a, b := r["a"].(J), r["b"].(J)
 	want := r["eq"].(string)
 	rep := func(what, got string, extra string) {
-		emit(J{"line": line, "what": what, "want": want, "got": got, "arenas": extra, "a": a, "b": b})
+		emit(J{"line": line, "what": what, "want": want, "got": got, "arenas": extra, "a": a, "b": b, "da": r["da"]})
 	}
 	for ai, aa := range arenas {
 		ab := arenas[(ai+1)%len(arenas)]
@@ -334,6 +334,32 @@ func doEq(line int, r J, stats map[string]int) {
 				}
 			}
 			stats["equal_calls"] += 4
+			// a layout of a whose padding bits / bytes carry garbage (spec-generated): same value, so the same verdicts
+			if da, ok := r["da"]; ok && ai == 0 {
+				if dirty := wordsToBytes(da); len(dirty) > 0 {
+					md := &capnp.Message{Arena: capnp.SingleSegment(dirty)}
+					pd, err := md.Root()
+					if err != nil {
+						rep("dirty-unreadable", err.Error(), tag)
+						return
+					}
+					e1, err1 := capnp.Equal(pd, pa)
+					e2, err2 := capnp.Equal(pa, pd)
+					e3, err3 := capnp.Equal(pd, pb)
+					e4, err4 := capnp.Equal(pb, pd)
+					stats["equal_calls"] += 4
+					if err1 != nil || err2 != nil || err3 != nil || err4 != nil {
+						rep("dirty-error", fmt.Sprint(err1, err2, err3, err4), tag)
+						return
+					}
+					if !e1 || !e2 {
+						rep("dirty-self", verdict(e1)+"/"+verdict(e2), tag)
+					}
+					if want != "either" && (verdict(e3) != want || verdict(e4) != want) {
+						rep("dirty-verdict", verdict(e3)+"/"+verdict(e4), tag)
+					}
+				}
+			}
 		}()
 	}
 }
